@@ -111,7 +111,35 @@ pub fn do_op2(sh: &Arc<Shared>, local: &mut TaskLocal, op: &Op) -> OpResult {
                 _ => return Err(OpErr::Skip),
             };
             let m = to_hazmat_mmode(&mmode(sh, mode)?);
-            let Some(hm) = hazmat_mode(&m) else { return Err(OpErr::Skip) };
+            // key and child CVs at reused addresses, each preceded by a decoy call (see stable.rs)
+            let m = match m {
+                MMode::Keyed(k) => {
+                    let d = crate::stable::place_decoy(0, &k);
+                    let _ = blake3::hazmat::merge_subtrees_non_root(crate::stable::place_decoy(1, &lc.cv), crate::stable::place_decoy(2, &rc.cv), blake3::hazmat::Mode::KeyedHash(d));
+                    MMode::Keyed(*crate::stable::place(0, &k))
+                }
+                MMode::ContextKey(k) => {
+                    let d = crate::stable::place_decoy(0, &k);
+                    let _ = blake3::hazmat::merge_subtrees_non_root(crate::stable::place_decoy(1, &lc.cv), crate::stable::place_decoy(2, &rc.cv), blake3::hazmat::Mode::DeriveKeyMaterial(d));
+                    MMode::ContextKey(*crate::stable::place(0, &k))
+                }
+                other => other,
+            };
+            let stable_key: Option<&'static [u8; 32]> = match &m {
+                MMode::Keyed(k) | MMode::ContextKey(k) => Some(crate::stable::place(0, k)),
+                _ => None,
+            };
+            let hm = match (&m, stable_key) {
+                (MMode::Hash, _) => blake3::hazmat::Mode::Hash,
+                (MMode::Keyed(_), Some(k)) => blake3::hazmat::Mode::KeyedHash(k),
+                (MMode::ContextKey(_), Some(k)) => blake3::hazmat::Mode::DeriveKeyMaterial(k),
+                _ => return Err(OpErr::Skip),
+            };
+            let mut lc = lc;
+            let mut rc = rc;
+            let (lcv, rcv) = (crate::stable::place(1, &lc.cv), crate::stable::place(2, &rc.cv));
+            lc.cv = *lcv;
+            rc.cv = *rcv;
             let (k, f) = m.key_flags();
             let lw = model::key_words(&lc.cv);
             let rw = model::key_words(&rc.cv);
@@ -135,7 +163,7 @@ pub fn do_op2(sh: &Arc<Shared>, local: &mut TaskLocal, op: &Op) -> OpResult {
             };
             match kind {
                 MergeKind::NonRoot => {
-                    let got = blake3::hazmat::merge_subtrees_non_root(&lc.cv, &rc.cv, hm);
+                    let got = blake3::hazmat::merge_subtrees_non_root(lcv, rcv, hm);
                     let want = node.cv_bytes();
                     if got != want {
                         return viol("result-mismatch", format!("merge_subtrees_non_root got {} want spec {}", hx(&got), hx(&want)));
@@ -144,7 +172,7 @@ pub fn do_op2(sh: &Arc<Shared>, local: &mut TaskLocal, op: &Op) -> OpResult {
                     Ok(Fnv::of(&got))
                 }
                 MergeKind::Root => {
-                    let got = *blake3::hazmat::merge_subtrees_root(&lc.cv, &rc.cv, hm).as_bytes();
+                    let got = *blake3::hazmat::merge_subtrees_root(lcv, rcv, hm).as_bytes();
                     let want = node.root_hash();
                     if got != want {
                         return viol("result-mismatch", format!("merge_subtrees_root got {} want spec {}", hx(&got), hx(&want)));
@@ -159,7 +187,7 @@ pub fn do_op2(sh: &Arc<Shared>, local: &mut TaskLocal, op: &Op) -> OpResult {
                     Ok(Fnv::of(&got))
                 }
                 MergeKind::RootXof => {
-                    let mut rd = blake3::hazmat::merge_subtrees_root_xof(&lc.cv, &rc.cv, hm);
+                    let mut rd = blake3::hazmat::merge_subtrees_root_xof(lcv, rcv, hm);
                     let mut buf = vec![0u8; *n];
                     rd.fill(&mut buf);
                     let want = node.stream(0, *n);
@@ -229,6 +257,9 @@ pub fn do_op2(sh: &Arc<Shared>, local: &mut TaskLocal, op: &Op) -> OpResult {
             let text = format!("{:?}", cs);
             sh.stats.lock().unwrap().blobs.push((local.id, 0, format!("debug:guts:{}", out), text.clone().into_bytes(), vec![]));
             let got = *cs.finalize(*is_root).as_bytes();
+            // ... and again after finalize, and of a clone (nothing computed from the input may have been kept for printing)
+            let text2 = format!("{:?}|{:#?}", cs, cs.clone());
+            sh.stats.lock().unwrap().blobs.push((local.id, 0, format!("debug:guts-after-finalize:{}", out), text2.into_bytes(), vec![]));
             let node = model::chunk_node(&model::IV, 0, bytes, *counter);
             let want = if *is_root { node.root_hash() } else { node.cv_bytes() };
             if got != want {
@@ -251,7 +282,8 @@ pub fn do_op2(sh: &Arc<Shared>, local: &mut TaskLocal, op: &Op) -> OpResult {
                 Some(Slot::Cv(c)) => c.clone(),
                 _ => return Err(OpErr::Skip),
             };
-            let got = *blake3::guts::parent_cv(&blake3::Hash::from_bytes(lc.cv), &blake3::Hash::from_bytes(rc.cv), *is_root).as_bytes();
+            let root = *is_root;
+            let got = crate::stable::with_hashes(&lc.cv, &rc.cv, |a, b| *blake3::guts::parent_cv(a, b, root).as_bytes());
             let node = model::parent_node(&model::IV, 0, &model::key_words(&lc.cv), &model::key_words(&rc.cv));
             let want = if *is_root { node.root_hash() } else { node.cv_bytes() };
             if got != want {
@@ -330,6 +362,24 @@ pub fn do_op2(sh: &Arc<Shared>, local: &mut TaskLocal, op: &Op) -> OpResult {
                     ("OutputReader", p, q)
                 }
                 Some(Slot::Cv(c)) => {
+                    // a Hash has alignment 1: a field behind a one-byte tag sits at any address. Every offset mod 8:
+                    #[cfg(feature = "full")]
+                    for k in 0..8usize {
+                        let mut store = [0xA5u8; 48];
+                        let at = store.as_ptr() as usize;
+                        let shift = (8 - at % 8) % 8 + k;
+                        let hp = unsafe { store.as_mut_ptr().add(shift) as *mut blake3::Hash };
+                        unsafe {
+                            hp.write(blake3::Hash::from_bytes(c.cv));
+                            (*hp).zeroize();
+                        }
+                        if store[shift..shift + 32].iter().any(|b| *b != 0) {
+                            return viol("leak-zeroize", format!("Hash at an address that is {k} mod 8: not all-zero after zeroize() ({})", hx(&store[shift..shift + 32])));
+                        }
+                        if store[..shift].iter().chain(store[shift + 32..].iter()).any(|b| *b != 0xA5) {
+                            return viol("canary", format!("Hash::zeroize at an address that is {k} mod 8 wrote outside the object"));
+                        }
+                    }
                     let mut h = blake3::Hash::from_bytes(c.cv);
                     let p = unsafe { raw_bytes(&h) };
                     h.zeroize();
